@@ -10,11 +10,20 @@ Record bcase := mkBCase {
 
 Definition b_close (a b : bounds) : bool := xq_close (lo a) (lo b) && xq_close (hi a) (hi b).
 
-Definition check_bcase (c : bcase) : bool :=
-  let a := analyze_with (bc_dom c) (bc_cs c) (bc_steps c) in
+Definition check_bcase_t (ties : bool) (c : bcase) : bool :=
+  let a := analyze_with_t ties (bc_dom c) (bc_cs c) (bc_steps c) in
   list_eqb (fun x y => String.eqb (fst x) (fst y) && b_close (snd x) (snd y)) (a_vb a) (bc_box c)
   && Bool.eqb (a_limit a) (bc_limit c) && Bool.eqb (a_infeasible a) (bc_infeasible c)
   && list_eqb b_close (map (bounds_of a) (bc_probes c)) (bc_probe_bounds c).
+(* An exact tie between two bounds computed along different paths is resolved by f64 rounding noise; the
+   implementation's answer must be the model's under one of the two resolutions (Bounds.b_intersection). *)
+Definition check_bcase (c : bcase) : bool := check_bcase_t false c || check_bcase_t true c.
+Definition tie_resolved_by_noise (c : bcase) : bool := negb (check_bcase_t false c) && check_bcase_t true c.
+Fixpoint bnoise_from (i : Z) (l : list bcase) : list Z :=
+  match l with
+  | [] => []
+  | c :: cs => if tie_resolved_by_noise c then i :: bnoise_from (i + 1)%Z cs else bnoise_from (i + 1)%Z cs
+  end.
 
 Fixpoint bfailures_from (i : Z) (l : list bcase) : list Z :=
   match l with
